@@ -94,9 +94,23 @@ theorem maskVec_aux {β γ : Type} (f : β × β → γ) (xs : List (Bool × β)
     · simp
     · simp [pairsOf, List.map_map, Function.comp_def]
 
+/-- the generated leaf (the source's `&`) is the conjunction of the two mask bits -/
+theorem pairSelected_spec (a b : Bool) :
+    (Rsa.Gen.C10.pairSelected a.toNat b.toNat == 1) = (a && b) := by
+  cases a <;> cases b <;> rfl
+
+theorem maskVec_def {β : Type} (mask : List Bool) (v : List (Option β)) :
+    maskVec mask v = ((pairsOf mask).zip v).filterMap
+      (fun mv => if mv.1.1 && mv.1.2 then some mv.2 else none) := by
+  unfold maskVec
+  congr 1
+  funext mv
+  rw [pairSelected_spec]
+
 theorem maskVec_render (e : Nat → Nat → Option α) (mask : List Bool) (cp : List (Option Nat))
     (hlen : mask.length = cp.length) :
     maskVec mask (renderVec e cp) = renderVec e (pickMask mask cp) := by
+  rw [maskVec_def]
   have h := maskVec_aux (fun p : Option Nat × Option Nat => entryOf e p.1 p.2) (mask.zip cp)
   rw [List.map_fst_zip (by omega), List.map_snd_zip (by omega)] at h
   exact h
